@@ -10,9 +10,9 @@ namespace Pharmpy.C14
 
 /-! ## get_doseid -/
 
-/-- On every dataset without reset events whose individuals are in chronological order, have at
-    most one dose record per time stamp and have no record tied with their first dose outside the
-    id/time group of row 0, `get_doseid` is the per-individual walk. -/
+/-- On every dataset without reset events whose individuals are in chronological order and have at
+    most one dose record per time stamp, `get_doseid` (as repaired by 183fc9b) is the
+    per-individual walk — in particular for a record tied with the first dose of ANY individual. -/
 theorem doseid_eq_walk_partial (cfg : Cfg) (ds : List Rec) (h : Regular cfg ds) :
     getDoseid cfg ds = walkDoseid cfg ds := doseid_eq_walk h
 
@@ -35,17 +35,17 @@ example :
     NoTie ds ∧ getDoseid cfgEvid ds = [1, 1, 1, 2, 2, 0, 1, 1] := by
   decide +kernel
 
-/-- F11: the full statement is false — two individuals with identical records get different ids
-    (`0 in groupind` tests the row label, not "first dose of the individual"). -/
-theorem doseid_first_row_witness :
+/-- F11 (repaired by 183fc9b): two individuals with identical records get identical dose ids, the
+    record tied with the first dose stays in dose period 1; the dataset is `Regular`. -/
+theorem doseid_first_row_fixed :
     let ds := [mkRec 0 1 0 10, mkRec 1 1 0 0, mkRec 2 1 1 0, mkRec 3 2 0 10, mkRec 4 2 0 0, mkRec 5 2 1 0]
-    getDoseid cfgDose ds = [1, 1, 1, 1, 0, 1] ∧ walkDoseid cfgDose ds = [1, 1, 1, 1, 1, 1] := by
+    Regular cfgDose ds ∧ getDoseid cfgDose ds = [1, 1, 1, 1, 1, 1] ∧ walkDoseid cfgDose ds = [1, 1, 1, 1, 1, 1] := by
   decide +kernel
 
 /-- a tie that spans two reset groups is decremented once per group -/
 theorem doseid_reset_tie_witness :
     let ds := [mkRec 0 1 0 10 1, mkRec 1 1 5 0, mkRec 2 1 5 10 1, mkRec 3 1 5 0, mkRec 4 1 5 0 3, mkRec 5 1 5 0]
-    getDoseid cfgEvid ds = [1, 1, 2, 0, 0, 0] ∧ walkDoseid cfgEvid ds = [1, 1, 2, 1, 2, 2] := by
+    getDoseid cfgEvid ds = [1, 1, 2, 1, 1, 1] ∧ walkDoseid cfgEvid ds = [1, 1, 2, 1, 2, 2] := by
   decide +kernel
 
 /-- a record between two dose records of one time stamp is compared with the later dose -/
@@ -74,7 +74,8 @@ theorem tad_zero_at_dose (cfg : Cfg) (ds : List Rec) :
 
 /-- frame: the returned records are exactly the (non-expanded) records, each with all its
     values — as a multiset; the order is NOT kept (records are regrouped by ascending id and
-    stable-sorted by dose id, and `doseid_first_row_witness` shows a dose id sequence 1, 0) -/
+    stable-sorted by dose id, and the non-vacuity example below `doseid_eq_walk_partial` has the
+    dose id sequence 2, 1 within one individual) -/
 theorem tad_frame_records (cfg : Cfg) (ds : List Rec) :
     ((addTad cfg ds).map (·.1)).Perm ((expand cfg ds).filter (fun r => !r.expanded)) :=
   tad_frame_perm cfg ds
